@@ -27,6 +27,8 @@ type c2Case struct {
 	Death int `json:"death"`
 	// Only (replay / shrinking aid): when >= 0 only this fault point index is executed
 	Only int `json:"only"`
+	// Force: the runs into which faults are injected use Force (nothing is trusted as cached; previous output must survive all the same)
+	Force bool `json:"force,omitempty"`
 }
 
 var c2ErrorKinds = []string{
@@ -50,6 +52,7 @@ func genC02(t *rapid.T) c2Case {
 	names := rapid.SampledFrom([][]string{{"g"}, {"g", "gen"}, {"deep", "deepcopy"}, {"x1", "a"}}).Draw(t, "gens")
 	o := modOpts{gens: []string{"zzz"}, minPkgs: 2, maxPkgs: 4, locals: false, tagDensity: 9, pkgTagBias: 9, maxDecls: 3, imports: true}
 	c := c2Case{ModCase: genMod(t, o), Gens: names, Only: -1}
+	c.Force = rapid.IntRange(0, 2).Draw(t, "force") == 0
 	// the first package imports all others so that one entry covers the module
 	first := &c.Mod.Pkgs[0]
 	if first.Name == "main" || true {
@@ -217,7 +220,7 @@ func oracleC02(c c2Case) error {
 	}
 	ent := []string{entry(c.Mod.Pkgs[0].Dir)}
 	run := func(scripts []*script.Script) script.RunResult {
-		return script.Run(script.RunSpec{Dir: dir, Entrypoints: ent, All: true, Globals: globals, Base: "zz_generated", Scripts: scripts})
+		return script.Run(script.RunSpec{Dir: dir, Entrypoints: ent, All: true, Force: c.Force, Globals: globals, Base: "zz_generated", Scripts: scripts})
 	}
 	// previous successful run: outputs to protect and a gengo.sum that says "done"
 	r0 := run(c.baseScripts())
@@ -261,7 +264,7 @@ func oracleC02(c c2Case) error {
 		prevFile := path.Join(pt.Dir, "zz_generated."+pt.Gen+".go")
 		switch pt.Kind {
 		case "exit", "kill", "die-by-panic":
-			_, exit, stderr := script.RunChild(script.RunSpec{Dir: dir, Entrypoints: ent, All: true, Globals: globals, Base: "zz_generated", Scripts: scripts, NoRecover: true}, os.TempDir())
+			_, exit, stderr := script.RunChild(script.RunSpec{Dir: dir, Entrypoints: ent, All: true, Force: c.Force, Globals: globals, Base: "zz_generated", Scripts: scripts, NoRecover: true}, os.TempDir())
 			if exit == 0 {
 				return fmt.Errorf("%s: the process was supposed to die inside GenerateType but exited 0", where)
 			}
@@ -329,6 +332,9 @@ func oracleC02(c c2Case) error {
 
 func c2Features(c c2Case) []string {
 	fs := []string{fmt.Sprintf("gens-%d", len(c.Gens)), fmt.Sprintf("pkgs-%d", len(c.Mod.Pkgs))}
+	if c.Force {
+		fs = append(fs, "force")
+	}
 	return fs
 }
 
